@@ -1034,7 +1034,9 @@ def render_value(I, kind, ty, ref, out):
             return
         # symbolic integer: fork on the NUMBER OF DIGITS (solver-decided); the digits themselves are fresh symbolic bytes
         if v.s:
-            raise Unsupported('Display of a symbolic signed integer')
+            # a signed value that is provably non-negative on this path prints like the unsigned one
+            if z3.is_int(v.v) or I.check_with(v.v < 0) != z3.unsat:
+                raise Unsupported('Display of a symbolic signed integer that may be negative')
         isint = z3.is_int(v.v)
         alts = []
         maxd = 20 if v.w >= 64 else (10 if v.w == 32 else 5)
